@@ -106,4 +106,432 @@ where
             have hlt := hp bi b hb p hpar
             rw [ih p hlt f' (by omega) (by omega) h, ih p hlt bi (by omega) (by omega) h]
 
+/-! ### the link invariant -/
+
+/-- consecutive headers of a branch are linked by their previous-block ids. -/
+def InternallyLinked : List HData → Prop
+  | [] => True
+  | [_] => True
+  | a :: b :: rest => b.hdr.prev = a.hdr.id ∧ InternallyLinked (b :: rest)
+
+structure BranchLinks (ar : Arena) (bi : Nat) (b : Branch) : Prop where
+  off : b.offset = 1
+  nonempty : b.headers ≠ []
+  firstIs : ∀ d, b.headers.head? = some d → d.hdr = b.first
+  linked : InternallyLinked b.headers
+  parentLink : ∀ p, b.parent = some p → ∃ d, atH ar p b.parentHeight = some d ∧ d.hdr.id = b.first.prev
+
+/-- the forest is well linked. -/
+structure LinkWF (ar : Arena) : Prop where
+  dec : ParentsDecrease ar
+  each : ∀ (bi : Nat) (b : Branch), ar[bi]? = some b → BranchLinks ar bi b
+
+theorem internallyLinked_getI (l : List HData) (hl : InternallyLinked l) (i : Int) (a b : HData)
+    (ha : getI l i = some a) (hb : getI l (i - 1) = some b) : a.hdr.prev = b.hdr.id := by
+  unfold getI at ha hb
+  split at ha
+  · cases ha
+  · split at hb
+    · cases hb
+    · rename_i h1 h2
+      obtain ⟨k, hk⟩ : ∃ k : Nat, i = (k : Int) + 1 := ⟨(i - 1).toNat, by omega⟩
+      subst hk
+      have e1 : ((k : Int) + 1).toNat = k + 1 := by omega
+      have e2 : ((k : Int) + 1 - 1).toNat = k := by omega
+      rw [e1] at ha; rw [e2] at hb
+      clear h1 h2 e1 e2
+      induction l generalizing k with
+      | nil => simp at ha
+      | cons x xs ih =>
+        cases xs with
+        | nil => simp at ha
+        | cons y ys =>
+          cases k with
+          | zero =>
+            simp only [List.getElem?_cons_succ, List.getElem?_cons_zero, Option.some.injEq] at ha hb
+            subst ha; subst hb
+            exact hl.1
+          | succ k =>
+            simp only [List.getElem?_cons_succ] at ha hb
+            exact ih hl.2 k (by simpa using ha) (by simpa using hb)
+
+/-- **the headers along a branch's ancestry form a linked chain**: whenever the lookups at `h` and
+    `h − 1` both succeed, the header at `h` names the header at `h − 1` as its previous block. -/
+theorem atH_linked (ar : Arena) (hw : LinkWF ar) (bi : Nat) (h : Int) (a b : HData)
+    (ha : atH ar bi h = some a) (hb : atH ar bi (h - 1) = some b) : a.hdr.prev = b.hdr.id := by
+  induction bi using Nat.strongRecOn generalizing h a b with
+  | _ bi ih =>
+    cases hbr : ar[bi]? with
+    | none => unfold atH at ha; simp [atHeight, hbr] at ha
+    | some br =>
+      have hl := hw.each bi br hbr
+      rw [atH_unfold ar hw.dec bi br hbr] at ha hb
+      by_cases h1 : h > br.parentHeight
+      · simp only [h1, ↓reduceIte] at ha
+        by_cases h2 : h - 1 > br.parentHeight
+        · simp only [h2, ↓reduceIte] at hb
+          have : h - 1 - br.parentHeight - br.offset = (h - br.parentHeight - br.offset) - 1 := by omega
+          rw [this] at hb
+          exact internallyLinked_getI _ hl.linked _ a b ha hb
+        · -- `h` is the first height of this branch: link to the parent
+          simp only [h2, ↓reduceIte] at hb
+          have hh : h = br.parentHeight + 1 := by omega
+          cases hpar : br.parent with
+          | none => rw [hpar] at hb; cases hb
+          | some p =>
+            rw [hpar] at hb
+            simp only at hb
+            obtain ⟨d, hd1, hd2⟩ := hl.parentLink p hpar
+            have : h - 1 = br.parentHeight := by omega
+            rw [this, hd1] at hb
+            simp only [Option.some.injEq] at hb
+            subst hb
+            -- a is the first header
+            rw [hh, hl.off] at ha
+            have e0 : br.parentHeight + 1 - br.parentHeight - 1 = 0 := by omega
+            rw [e0] at ha
+            unfold getI at ha
+            simp only [Int.lt_irrefl, ↓reduceIte, Int.toNat_zero] at ha
+            have hf := hl.firstIs a (by rw [List.head?_eq_getElem?]; exact ha)
+            rw [hf]; exact hd2.symm
+      · simp only [h1, ↓reduceIte] at ha
+        have h2 : ¬ (h - 1 > br.parentHeight) := by omega
+        simp only [h2, ↓reduceIte] at hb
+        cases hpar : br.parent with
+        | none => rw [hpar] at ha; cases ha
+        | some p =>
+          rw [hpar] at ha hb
+          simp only at ha hb
+          exact ih p (hw.dec bi br hbr p hpar) h a b ha hb
+
+/-! ### preservation by `ProcessHeader` -/
+
+theorem atHeight_some_lt (ar : Arena) (f bi : Nat) (h : Int) (d : HData) (hs : atHeight ar f bi h = some d) :
+    bi < ar.length := by
+  cases f with
+  | zero => simp [atHeight] at hs
+  | succ f =>
+    simp only [atHeight] at hs
+    by_cases hb : bi < ar.length
+    · exact hb
+    · rw [List.getElem?_eq_none (by omega)] at hs; cases hs
+
+theorem internallyLinked_append (l : List HData) (x lst : HData) (hl : InternallyLinked l)
+    (hlast : l.getLast? = some lst) (hx : x.hdr.prev = lst.hdr.id) : InternallyLinked (l ++ [x]) := by
+  induction l with
+  | nil => simp at hlast
+  | cons a rest ih =>
+    cases rest with
+    | nil =>
+      simp only [List.getLast?_singleton, Option.some.injEq] at hlast
+      subst hlast
+      exact ⟨hx, trivial⟩
+    | cons b rest' =>
+      simp only [List.cons_append]
+      refine ⟨hl.1, ?_⟩
+      have : (b :: rest').getLast? = some lst := by simpa [List.getLast?_cons_cons] using hlast
+      exact ih hl.2 this
+
+/-- the genesis-only forest is well linked. -/
+theorem linkWF_single (b : Branch) (hoff : b.offset = 1) (hpar : b.parent = none) (d : HData)
+    (hh : b.headers = [d]) (hf : d.hdr = b.first) : LinkWF [b] := by
+  refine ⟨?_, ?_⟩
+  · intro bi br hbr p hp
+    cases bi with
+    | zero => simp only [List.getElem?_cons_zero, Option.some.injEq] at hbr; subst hbr; rw [hpar] at hp; cases hp
+    | succ n => simp at hbr
+  · intro bi br hbr
+    cases bi with
+    | zero =>
+      simp only [List.getElem?_cons_zero, Option.some.injEq] at hbr
+      subst hbr
+      refine ⟨hoff, by rw [hh]; simp, ?_, by rw [hh]; trivial, ?_⟩
+      · intro d' hd'; rw [hh] at hd'; simp only [List.head?_cons, Option.some.injEq] at hd'; subst hd'; exact hf
+      · intro p hp; rw [hpar] at hp; cases hp
+    | succ n => simp at hbr
+
+/-- new-branch path: appending the branch `NewBranch` built keeps the forest well linked. -/
+theorem linkWF_append (ar : Arena) (hw : LinkWF ar) (pb : Nat) (ph : Int) (h : Hdr) (lst : HData) (w : Nat)
+    (hat : atH ar pb ph = some lst) (hprev : lst.hdr.id = h.prev) :
+    LinkWF (ar ++ [{ parent := some pb, parentHeight := ph, first := h, offset := 1,
+                      headers := [{ hdr := h, work := w }], hmap := [(h.id, ph + 1)] }]) := by
+  have hpb : pb < ar.length := atHeight_some_lt ar _ pb ph lst hat
+  refine ⟨?_, ?_⟩
+  · intro bi br hbr p hp
+    by_cases hlt : bi < ar.length
+    · rw [List.getElem?_append_left hlt] at hbr
+      exact hw.dec bi br hbr p hp
+    · have : bi = ar.length := by
+        have := List.getElem?_eq_some_iff.mp hbr
+        obtain ⟨hl, _⟩ := this
+        simp only [List.length_append, List.length_cons, List.length_nil] at hl
+        omega
+      subst this
+      simp only [List.getElem?_concat_length, Option.some.injEq] at hbr
+      subst hbr
+      simp only [Option.some.injEq] at hp
+      omega
+  · intro bi br hbr
+    by_cases hlt : bi < ar.length
+    · rw [List.getElem?_append_left hlt] at hbr
+      have hb := hw.each bi br hbr
+      refine ⟨hb.off, hb.nonempty, hb.firstIs, hb.linked, ?_⟩
+      intro p hp
+      obtain ⟨d, hd1, hd2⟩ := hb.parentLink p hp
+      have hpl : p < ar.length := by have := hw.dec bi br hbr p hp; omega
+      exact ⟨d, by rw [atH_append ar hw.dec _ p hpl]; exact hd1, hd2⟩
+    · have : bi = ar.length := by
+        have := List.getElem?_eq_some_iff.mp hbr
+        obtain ⟨hl, _⟩ := this
+        simp only [List.length_append, List.length_cons, List.length_nil] at hl
+        omega
+      subst this
+      simp only [List.getElem?_concat_length, Option.some.injEq] at hbr
+      subst hbr
+      refine ⟨rfl, by simp, ?_, trivial, ?_⟩
+      · intro d hd; simp only [List.head?_cons, Option.some.injEq] at hd; subst hd; rfl
+      · intro p hp
+        simp only [Option.some.injEq] at hp
+        subst hp
+        exact ⟨lst, by rw [atH_append ar hw.dec _ pb hpb]; exact hat, hprev⟩
+
+/-- extending a branch keeps every successful lookup. -/
+theorem atH_set_extend (ar : Arena) (hp : ParentsDecrease ar) (pb : Nat) (b b2 : Branch) (x : HData)
+    (hb : ar[pb]? = some b) (hpar : b2.parent = b.parent) (hph : b2.parentHeight = b.parentHeight)
+    (hoff : b2.offset = b.offset) (hh : b2.headers = b.headers ++ [x])
+    (bi : Nat) (h : Int) (d : HData) (hs : atH ar bi h = some d) : atH (ar.set pb b2) bi h = some d := by
+  have hp' : ParentsDecrease (ar.set pb b2) := by
+    intro i br hbr p hpp
+    by_cases hi : i = pb
+    · subst hi
+      have hlen : i < ar.length := (List.getElem?_eq_some_iff.mp hb).1
+      rw [List.getElem?_set_self hlen] at hbr
+      simp only [Option.some.injEq] at hbr
+      subst hbr
+      rw [hpar] at hpp
+      exact hp i b hb p hpp
+    · rw [List.getElem?_set_ne (fun hc => hi hc.symm)] at hbr
+      exact hp i br hbr p hpp
+  induction bi using Nat.strongRecOn generalizing h d with
+  | _ bi ih =>
+    cases hbr : ar[bi]? with
+    | none => unfold atH at hs; simp [atHeight, hbr] at hs
+    | some br =>
+      rw [atH_unfold ar hp bi br hbr] at hs
+      by_cases hi : bi = pb
+      · subst hi
+        rw [hb] at hbr
+        simp only [Option.some.injEq] at hbr
+        subst hbr
+        have hlen : bi < ar.length := (List.getElem?_eq_some_iff.mp hb).1
+        rw [atH_unfold (ar.set bi b2) hp' bi b2 (List.getElem?_set_self hlen)]
+        rw [hph, hoff, hh, hpar]
+        by_cases h1 : h > b.parentHeight
+        · simp only [h1, ↓reduceIte] at hs ⊢
+          -- index into the extended list
+          unfold getI at hs ⊢
+          split at hs
+          · cases hs
+          · rename_i hneg
+            simp only [hneg, ↓reduceIte]
+            have := List.getElem?_eq_some_iff.mp hs
+            obtain ⟨hlt, _⟩ := this
+            rw [List.getElem?_append_left hlt]; exact hs
+        · simp only [h1, ↓reduceIte] at hs ⊢
+          cases hpp : b.parent with
+          | none => rw [hpp] at hs; cases hs
+          | some p =>
+            rw [hpp] at hs
+            simp only at hs ⊢
+            exact ih p (hp bi b hb p hpp) h d hs
+      · have hbr' : (ar.set pb b2)[bi]? = some br := by
+          rw [List.getElem?_set_ne (fun hc => hi hc.symm)]; exact hbr
+        rw [atH_unfold (ar.set pb b2) hp' bi br hbr']
+        by_cases h1 : h > br.parentHeight
+        · simp only [h1, ↓reduceIte] at hs ⊢; exact hs
+        · simp only [h1, ↓reduceIte] at hs ⊢
+          cases hpp : br.parent with
+          | none => rw [hpp] at hs; cases hs
+          | some p =>
+            rw [hpp] at hs
+            simp only at hs ⊢
+            exact ih p (hp bi br hbr p hpp) h d hs
+
+/-- extension path: appending a header that names the branch's last header keeps the forest well linked. -/
+theorem linkWF_extend (ar : Arena) (hw : LinkWF ar) (pb : Nat) (b b2 : Branch) (x lst : HData)
+    (hb : ar[pb]? = some b) (hpar : b2.parent = b.parent) (hph : b2.parentHeight = b.parentHeight)
+    (hoff : b2.offset = b.offset) (hfirst : b2.first = b.first) (hh : b2.headers = b.headers ++ [x])
+    (hlast : b.headers.getLast? = some lst) (hx : x.hdr.prev = lst.hdr.id) : LinkWF (ar.set pb b2) := by
+  have hlen : pb < ar.length := (List.getElem?_eq_some_iff.mp hb).1
+  refine ⟨?_, ?_⟩
+  · intro i br hbr p hpp
+    by_cases hi : i = pb
+    · subst hi
+      rw [List.getElem?_set_self hlen] at hbr
+      simp only [Option.some.injEq] at hbr
+      subst hbr
+      rw [hpar] at hpp
+      exact hw.dec i b hb p hpp
+    · rw [List.getElem?_set_ne (fun hc => hi hc.symm)] at hbr
+      exact hw.dec i br hbr p hpp
+  · intro bi br hbr
+    by_cases hi : bi = pb
+    · subst hi
+      rw [List.getElem?_set_self hlen] at hbr
+      simp only [Option.some.injEq] at hbr
+      subst hbr
+      have hbl := hw.each bi b hb
+      refine ⟨by rw [hoff]; exact hbl.off, by rw [hh]; simp, ?_, by rw [hh]; exact internallyLinked_append _ _ _ hbl.linked hlast hx, ?_⟩
+      · intro d hd
+        rw [hh] at hd
+        rw [hfirst]
+        apply hbl.firstIs d
+        cases hl : b.headers with
+        | nil => exact absurd hl hbl.nonempty
+        | cons a rest => rw [hl] at hd; simpa using hd
+      · intro p hpp
+        rw [hpar] at hpp
+        obtain ⟨d, hd1, hd2⟩ := hbl.parentLink p hpp
+        rw [hph, hfirst]
+        exact ⟨d, atH_set_extend ar hw.dec bi b _ x hb hpar hph hoff hh p _ d hd1, hd2⟩
+    · rw [List.getElem?_set_ne (fun hc => hi hc.symm)] at hbr
+      have hbl := hw.each bi br hbr
+      refine ⟨hbl.off, hbl.nonempty, hbl.firstIs, hbl.linked, ?_⟩
+      intro p hpp
+      obtain ⟨d, hd1, hd2⟩ := hbl.parentLink p hpp
+      exact ⟨d, atH_set_extend ar hw.dec pb b b2 x hb hpar hph hoff hh p _ d hd1, hd2⟩
+
+/-! ### `ProcessHeader` as a whole -/
+
+theorem newBranch_ok_shape (r : Repo) (pb : Nat) (ph : Int) (h : Hdr) (nb : Branch)
+    (hn : newBranch r (some pb) ph h = .ok nb) :
+    ∃ lst w, r.at pb ph = some lst ∧ lst.hdr.id = h.prev ∧
+      nb = { parent := some pb, parentHeight := ph, first := h, offset := 1,
+             headers := [{ hdr := h, work := lst.work + w }], hmap := [(h.id, ph + 1)] } := by
+  unfold newBranch at hn
+  simp only at hn
+  cases hat : r.at pb ph with
+  | none => rw [hat] at hn; cases hn
+  | some l =>
+    rw [hat] at hn
+    simp only at hn
+    by_cases hne : l.hdr.id = h.prev
+    · simp only [hne, ne_eq, not_true_eq_false, ↓reduceIte] at hn
+      cases hw : Work.blockWork h.bits with
+      | none => rw [hw] at hn; cases hn
+      | some w =>
+        rw [hw] at hn
+        simp only [Except.ok.injEq] at hn
+        exact ⟨l, w, rfl, hne, hn.symm⟩
+    · simp only [ne_eq, hne, not_false_eq_true, ↓reduceIte] at hn; cases hn
+
+theorem reselect_ok_arena (r1 r2 : Repo) (sent : Bool) (evs : List Hdr) (h : reselect r1 = .ok (r2, sent, evs)) :
+    r2.arena = r1.arena := by
+  unfold reselect at h
+  split at h
+  · cases h
+  · split at h
+    · split at h
+      · cases h
+      · simp only [Except.ok.injEq, Prod.mk.injEq] at h; rw [← h.1]
+    · simp only [Except.ok.injEq, Prod.mk.injEq] at h; rw [← h.1]
+
+theorem reselect_error_arena (r1 r2 : Repo) (o : StepOut) (h : reselect r1 = .error (r2, o)) :
+    r2.arena = r1.arena := by
+  unfold reselect at h
+  split at h
+  · simp only [Except.error.injEq, Prod.mk.injEq] at h; rw [← h.1]
+  · split at h
+    · split at h
+      · simp only [Except.error.injEq, Prod.mk.injEq] at h; rw [← h.1]
+      · cases h
+    · cases h
+
+/-- the forest stays well linked through the new-branch path. -/
+theorem linkWF_forkHeader (r : Repo) (h : Hdr) (pb : Nat) (ph : Int) (hw : LinkWF r.arena) :
+    LinkWF (forkHeader r h pb ph).1.arena := by
+  unfold forkHeader
+  cases hn : newBranch r (some pb) ph h with
+  | error v => exact hw
+  | ok nb =>
+    simp only
+    obtain ⟨lst, w, hat, hprev, rfl⟩ := newBranch_ok_shape r pb ph h nb hn
+    have hpb : pb < r.arena.length := atHeight_some_lt _ _ _ _ _ hat
+    rw [Repo.at_eq_atH r hw.dec pb hpb] at hat
+    have hnew := linkWF_append r.arena hw pb ph h lst (lst.work + w) hat hprev
+    generalize hr : reselect _ = res
+    cases res with
+    | error x => obtain ⟨r2, o⟩ := x; simp only; rw [reselect_error_arena _ _ _ hr]; exact hnew
+    | ok y => obtain ⟨r2, s, evs⟩ := y; simp only; rw [reselect_ok_arena _ _ _ _ hr]; exact hnew
+
+/-- the forest stays well linked through the extension path (when the automatic clean is not due). -/
+theorem linkWF_extendHeader (r : Repo) (h : Hdr) (pb : Nat) (ph : Int) (lst : HData) (hw : LinkWF r.arena)
+    (hlast : r.lastOf pb = some lst) (hprev : lst.hdr.id = h.prev)
+    (hnc : Int.tmod ((r.br pb).height + 1) (Facts.autoCleanModulus : Int) ≠ 0) :
+    LinkWF (extendHeader r h pb ph lst).1.arena := by
+  unfold extendHeader
+  cases hbw : Work.blockWork h.bits with
+  | none => exact hw
+  | some w =>
+    simp only
+    -- the branch exists
+    have hlen : pb < r.arena.length := by
+      unfold Repo.lastOf Repo.br Branch.last? at hlast
+      by_cases hc : pb < r.arena.length
+      · exact hc
+      · rw [List.getElem?_eq_none (by omega)] at hlast
+        simp only [Option.getD_none] at hlast
+        cases hlast
+    have hb : r.arena[pb]? = some (r.br pb) := by
+      unfold Repo.br; rw [List.getElem?_eq_getElem hlen]; rfl
+    have hlast' : (r.br pb).headers.getLast? = some lst := hlast
+    have hadd : LinkWF (addToBranch r h pb ph lst w).arena := by
+      unfold addToBranch Repo.setBranch
+      simp only
+      exact linkWF_extend r.arena hw pb (r.br pb) _ { hdr := h, work := lst.work + w } lst hb rfl rfl rfl rfl rfl hlast' hprev.symm
+    have hheight : ((addToBranch r h pb ph lst w).br pb).height = (r.br pb).height + 1 := by
+      unfold addToBranch Repo.br Repo.setBranch Branch.height
+      simp only [List.getElem?_set_self hlen, Option.getD_some, List.length_append, List.length_cons, List.length_nil]
+      rw [List.getElem?_eq_getElem hlen]
+      simp only [Option.getD_some]
+      omega
+    have hl : (addToBranch r h pb ph lst w).longest = r.longest := rfl
+    by_cases hpl : pb = r.longest
+    · subst hpl
+      have e : (addToBranch r h r.longest ph lst w).longest = r.longest := rfl
+      simp only [e, ne_eq, not_true_eq_false, ↓reduceIte, hheight, hnc]
+      exact hadd
+    · simp only [hl, hpl, ne_eq, not_false_eq_true, ↓reduceIte]
+      generalize hr : reselect _ = res
+      cases res with
+      | error x => obtain ⟨r2, o⟩ := x; simp only; rw [reselect_error_arena _ _ _ hr]; exact hadd
+      | ok y =>
+        obtain ⟨r2, s, evs⟩ := y
+        have hk := reselect_ok_arena _ _ _ _ hr
+        simp only
+        have hbr : r2.br pb = (addToBranch r h pb ph lst w).br pb := by unfold Repo.br; rw [hk]
+        split
+        · rw [hbr, hheight]
+          simp only [hnc, ↓reduceIte]
+          rw [hk]; exact hadd
+        · rw [hk]; exact hadd
+
+/-- **`ProcessHeader` keeps the forest well linked** (every verdict; automatic clean not due). -/
+theorem linkWF_processHeader (r : Repo) (h : Hdr) (ok : Bool) (hw : LinkWF r.arena)
+    (hnc : ∀ pb ph lst, precheck r h ok = .inr (pb, ph, lst) →
+      Int.tmod ((r.br pb).height + 1) (Facts.autoCleanModulus : Int) ≠ 0) :
+    LinkWF (processHeader r h ok).1.arena := by
+  cases hpc : precheck r h ok with
+  | inl v => rw [processHeader_of_inl r h ok v hpc]; exact hw
+  | inr x =>
+    obtain ⟨pb, ph, lst⟩ := x
+    rw [processHeader_of_inr r h ok pb ph lst hpc]
+    have hpass := precheck_inr r h ok pb ph lst hpc
+    unfold applyHeader
+    by_cases hf : lst.hdr.id ≠ h.prev
+    · simp only [hf, ne_eq, not_false_eq_true, ↓reduceIte]
+      exact linkWF_forkHeader r h pb ph hw
+    · simp only [hf, ↓reduceIte]
+      exact linkWF_extendHeader r h pb ph lst hw hpass.lastIs (by simpa using hf) (hnc pb ph lst hpc)
+
 end BRV.Repo
